@@ -64,7 +64,7 @@ def package(measure, channel, events):
             b += f32(e[1])
         else:
             t = {"hit": 0, "head": 2, "tail": 3}[e[1]]
-            b += struct.pack("<hBB", 1, (e[2] << 4) | e[3], t)
+            b += struct.pack("<HBB", e[4] if len(e) > 4 else 1, (e[2] << 4) | e[3], t)
     return b
 
 
